@@ -82,6 +82,7 @@ type Contracts struct {
 	SpecCode []string // raw Go source blocks
 	Lemmas   []*Lemma
 	Guards   []GuardDecl
+	Broken   map[string][]string // function -> clauses of its contract that do not resolve against the current tree
 	Shared   []string    // struct types all of whose fields must be classified by a guard declaration (C10)
 	GuardCalls []GuardDecl // Field = T.f, Kind = method name, Arg = lock: calling that method on the interface stored in T.f requires the lock
 	Closers  map[string]string // Type.field -> function that alone closes the channel stored there
